@@ -55,7 +55,8 @@ def op_strategies(typed=False, explicit_ids=True, fresh=False, valid_before_only
                      else st.tuples(st.just("add_node"), PREF, st.sampled_from([0, 0, 1]), REF, tri, B).map(list)),
         "copy_to": st.tuples(st.just("copy_to"), REF, PREF, st.sampled_from([True, True, False]), B, st.booleans()).map(list),
         "add_tree": st.tuples(st.just("add_tree"), PREF, B, tri).map(list),
-        "move": st.tuples(st.just("move"), REF, st.one_of(st.integers(-1, 40), st.sampled_from([-2])), B).map(list),
+        # target -2 = the second tree (cross-tree move: refused), one time in ten
+        "move": st.tuples(st.just("move"), REF, st.tuples(st.integers(-1, 40), st.sampled_from([0] * 9 + [1])).map(lambda t: -2 if t[1] else t[0]), B).map(list),
         "remove": st.tuples(st.just("remove"), REF, st.sampled_from([False, False, True]), st.sampled_from([False, False, True])).map(list),
         "remove_children": st.tuples(st.just("remove_children"), REF).map(list),
         "clear": st.just(["clear"]),
@@ -103,9 +104,9 @@ PROFILES = {
 
 @st.composite
 def histories(draw, typed=False, max_ops=40, explicit_ids=True, fresh=False, kinds=None, max_nodes=15, valid_before_only=False,
-              eq_siblings=True, invalid_bias=False):
+              eq_siblings=True, invalid_bias=False, min_nodes=0, min_ops=None):
     opts = gen.node_opts(explicit_ids=explicit_ids, kinds=typed)
-    spec = draw(gen.forest_specs(max_nodes=max_nodes, max_depth=5, max_width=4, alphabet=LABELS, opts=opts))
+    spec = draw(gen.forest_specs(max_nodes=max_nodes, max_depth=5, max_width=4, alphabet=LABELS, opts=opts, min_nodes=min_nodes))
     if explicit_ids:
         gen.fix_sibling_ids(spec)
     spec2 = draw(gen.forest_specs(max_nodes=6, max_depth=3, max_width=3, alphabet=LABELS, opts=gen.node_opts(explicit_ids=False, kinds=typed)))
@@ -117,7 +118,12 @@ def histories(draw, typed=False, max_ops=40, explicit_ids=True, fresh=False, kin
         prof = "custom"
     if typed:
         kinds = [k for k in kinds]  # typed trees refuse move; still generated (must be refused)
-    one = st.one_of(*[strat[k] for k in kinds])
-    min_ops = draw(st.sampled_from([1, max(1, max_ops // 8), max(1, max_ops // 3)]))
+    if len(set(kinds)) != len(kinds):
+        # repeated kinds are weights (one_of would not honour them)
+        one = st.sampled_from(list(kinds)).flatmap(lambda k: strat[k])
+    else:
+        one = st.one_of(*[strat[k] for k in kinds])
+    if min_ops is None:
+        min_ops = draw(st.sampled_from([1, max(1, max_ops // 8), max(1, max_ops // 3)]))
     ops = draw(st.lists(one, min_size=min_ops, max_size=max_ops))
     return {"spec": spec, "spec2": spec2, "typed": typed, "ops": ops, "profile": prof}
